@@ -188,6 +188,7 @@ fn uncompressed_chunks<const NCH: usize, const K: usize, const CT1: u8, const CT
 //@ bound: LZMA2: only the end byte (empty stream) + 1 trailing byte
 #[cfg_attr(kani, kani::proof)]
 #[cfg_attr(kani, kani::stub(std::fmt::format, crate::verif_common::stub_format))]
+#[cfg_attr(kani, kani::stub(std::io::Error::is_interrupted, crate::verif_common::stub_not_interrupted))]
 #[cfg_attr(kani, kani::stub(crate::decode::lzbuffer::LzAccumBuffer::from_stream, crate::decode::lzbuffer::verif_h::accum_from_stream_with_capacity))]
 pub fn lzma2_end_only() {
     uncompressed_chunks::<0, 1, 1, 1, 0>()
@@ -197,6 +198,7 @@ pub fn lzma2_end_only() {
 //@ bound: LZMA2: two uncompressed chunks (control 1 then 2) of 3 symbolic bytes each, end byte, trailing byte
 #[cfg_attr(kani, kani::proof)]
 #[cfg_attr(kani, kani::stub(std::fmt::format, crate::verif_common::stub_format))]
+#[cfg_attr(kani, kani::stub(std::io::Error::is_interrupted, crate::verif_common::stub_not_interrupted))]
 #[cfg_attr(kani, kani::stub(crate::decode::lzbuffer::LzAccumBuffer::from_stream, crate::decode::lzbuffer::verif_h::accum_from_stream_with_capacity))]
 pub fn lzma2_uncompressed_1_2() {
     uncompressed_chunks::<2, 3, 1, 2, 0>()
@@ -207,6 +209,7 @@ pub fn lzma2_uncompressed_1_2() {
 //@ bound: LZMA2 stream: one LZMA chunk class 0 (props byte 0x5d), 2 abstract symbol(s) of 2 bytes, compressed-size field off by 0, uncompressed-size field off by 0; payload symbolic; end byte + 1 trailing byte
 #[cfg_attr(kani, kani::proof)]
 #[cfg_attr(kani, kani::stub(std::fmt::format, crate::verif_common::stub_format))]
+#[cfg_attr(kani, kani::stub(std::io::Error::is_interrupted, crate::verif_common::stub_not_interrupted))]
 #[cfg_attr(kani, kani::stub(crate::decode::lzma::DecoderState::process_next_inner, crate::decode::lzma::verif_h::abs_symbol))]
 #[cfg_attr(kani, kani::stub(crate::decode::lzma::DecoderState::reset_state, crate::decode::lzma2::verif_h::observing_reset_state))]
 #[cfg_attr(kani, kani::stub(crate::decode::lzbuffer::LzAccumBuffer::from_stream, crate::decode::lzbuffer::verif_h::accum_from_stream_with_capacity))]
@@ -218,6 +221,7 @@ pub fn lzma2_c0_n2_l2_pd0_ud0_p5d() {
 //@ bound: LZMA2 stream: one LZMA chunk class 1 (props byte 0x5d), 2 abstract symbol(s) of 2 bytes, compressed-size field off by 0, uncompressed-size field off by 0; payload symbolic; end byte + 1 trailing byte
 #[cfg_attr(kani, kani::proof)]
 #[cfg_attr(kani, kani::stub(std::fmt::format, crate::verif_common::stub_format))]
+#[cfg_attr(kani, kani::stub(std::io::Error::is_interrupted, crate::verif_common::stub_not_interrupted))]
 #[cfg_attr(kani, kani::stub(crate::decode::lzma::DecoderState::process_next_inner, crate::decode::lzma::verif_h::abs_symbol))]
 #[cfg_attr(kani, kani::stub(crate::decode::lzma::DecoderState::reset_state, crate::decode::lzma2::verif_h::observing_reset_state))]
 #[cfg_attr(kani, kani::stub(crate::decode::lzbuffer::LzAccumBuffer::from_stream, crate::decode::lzbuffer::verif_h::accum_from_stream_with_capacity))]
@@ -229,6 +233,7 @@ pub fn lzma2_c1_n2_l2_pd0_ud0_p5d() {
 //@ bound: LZMA2 stream: one LZMA chunk class 2 (props byte 0x5d), 2 abstract symbol(s) of 2 bytes, compressed-size field off by 0, uncompressed-size field off by 0; payload symbolic; end byte + 1 trailing byte
 #[cfg_attr(kani, kani::proof)]
 #[cfg_attr(kani, kani::stub(std::fmt::format, crate::verif_common::stub_format))]
+#[cfg_attr(kani, kani::stub(std::io::Error::is_interrupted, crate::verif_common::stub_not_interrupted))]
 #[cfg_attr(kani, kani::stub(crate::decode::lzma::DecoderState::process_next_inner, crate::decode::lzma::verif_h::abs_symbol))]
 #[cfg_attr(kani, kani::stub(crate::decode::lzma::DecoderState::reset_state, crate::decode::lzma2::verif_h::observing_reset_state))]
 #[cfg_attr(kani, kani::stub(crate::decode::lzbuffer::LzAccumBuffer::from_stream, crate::decode::lzbuffer::verif_h::accum_from_stream_with_capacity))]
@@ -240,6 +245,7 @@ pub fn lzma2_c2_n2_l2_pd0_ud0_p5d() {
 //@ bound: LZMA2 stream: one LZMA chunk class 3 (props byte 0x5d), 2 abstract symbol(s) of 2 bytes, compressed-size field off by 0, uncompressed-size field off by 0; payload symbolic; end byte + 1 trailing byte
 #[cfg_attr(kani, kani::proof)]
 #[cfg_attr(kani, kani::stub(std::fmt::format, crate::verif_common::stub_format))]
+#[cfg_attr(kani, kani::stub(std::io::Error::is_interrupted, crate::verif_common::stub_not_interrupted))]
 #[cfg_attr(kani, kani::stub(crate::decode::lzma::DecoderState::process_next_inner, crate::decode::lzma::verif_h::abs_symbol))]
 #[cfg_attr(kani, kani::stub(crate::decode::lzma::DecoderState::reset_state, crate::decode::lzma2::verif_h::observing_reset_state))]
 #[cfg_attr(kani, kani::stub(crate::decode::lzbuffer::LzAccumBuffer::from_stream, crate::decode::lzbuffer::verif_h::accum_from_stream_with_capacity))]
@@ -251,6 +257,7 @@ pub fn lzma2_c3_n2_l2_pd0_ud0_p5d() {
 //@ bound: LZMA2 stream: one LZMA chunk class 3 (props byte 0x5d), 2 abstract symbol(s) of 3 bytes, compressed-size field off by 0, uncompressed-size field off by 1; payload symbolic; end byte + 1 trailing byte
 #[cfg_attr(kani, kani::proof)]
 #[cfg_attr(kani, kani::stub(std::fmt::format, crate::verif_common::stub_format))]
+#[cfg_attr(kani, kani::stub(std::io::Error::is_interrupted, crate::verif_common::stub_not_interrupted))]
 #[cfg_attr(kani, kani::stub(crate::decode::lzma::DecoderState::process_next_inner, crate::decode::lzma::verif_h::abs_symbol))]
 #[cfg_attr(kani, kani::stub(crate::decode::lzma::DecoderState::reset_state, crate::decode::lzma2::verif_h::observing_reset_state))]
 #[cfg_attr(kani, kani::stub(crate::decode::lzbuffer::LzAccumBuffer::from_stream, crate::decode::lzbuffer::verif_h::accum_from_stream_with_capacity))]
@@ -262,6 +269,7 @@ pub fn lzma2_c3_n2_l3_pd0_ud1_p5d() {
 //@ bound: LZMA2 stream: one LZMA chunk class 3 (props byte 0x5d), 2 abstract symbol(s) of 3 bytes, compressed-size field off by 0, uncompressed-size field off by -1; payload symbolic; end byte + 1 trailing byte
 #[cfg_attr(kani, kani::proof)]
 #[cfg_attr(kani, kani::stub(std::fmt::format, crate::verif_common::stub_format))]
+#[cfg_attr(kani, kani::stub(std::io::Error::is_interrupted, crate::verif_common::stub_not_interrupted))]
 #[cfg_attr(kani, kani::stub(crate::decode::lzma::DecoderState::process_next_inner, crate::decode::lzma::verif_h::abs_symbol))]
 #[cfg_attr(kani, kani::stub(crate::decode::lzma::DecoderState::reset_state, crate::decode::lzma2::verif_h::observing_reset_state))]
 #[cfg_attr(kani, kani::stub(crate::decode::lzbuffer::LzAccumBuffer::from_stream, crate::decode::lzbuffer::verif_h::accum_from_stream_with_capacity))]
@@ -273,6 +281,7 @@ pub fn lzma2_c3_n2_l3_pd0_udm1_p5d() {
 //@ bound: LZMA2 stream: one LZMA chunk class 1 (props byte 0x5d), 1 abstract symbol(s) of 19 bytes, compressed-size field off by -1, uncompressed-size field off by 0; payload symbolic; end byte + 1 trailing byte
 #[cfg_attr(kani, kani::proof)]
 #[cfg_attr(kani, kani::stub(std::fmt::format, crate::verif_common::stub_format))]
+#[cfg_attr(kani, kani::stub(std::io::Error::is_interrupted, crate::verif_common::stub_not_interrupted))]
 #[cfg_attr(kani, kani::stub(crate::decode::lzma::DecoderState::process_next_inner, crate::decode::lzma::verif_h::abs_symbol))]
 #[cfg_attr(kani, kani::stub(crate::decode::lzma::DecoderState::reset_state, crate::decode::lzma2::verif_h::observing_reset_state))]
 #[cfg_attr(kani, kani::stub(crate::decode::lzbuffer::LzAccumBuffer::from_stream, crate::decode::lzbuffer::verif_h::accum_from_stream_with_capacity))]
@@ -284,6 +293,7 @@ pub fn lzma2_c1_n1_l19_pdm1_ud0_p5d() {
 //@ bound: LZMA2 stream: one LZMA chunk class 2 (props byte 0x5d), 1 abstract symbol(s) of 2 bytes, compressed-size field off by -6, uncompressed-size field off by 0; payload symbolic; end byte + 1 trailing byte
 #[cfg_attr(kani, kani::proof)]
 #[cfg_attr(kani, kani::stub(std::fmt::format, crate::verif_common::stub_format))]
+#[cfg_attr(kani, kani::stub(std::io::Error::is_interrupted, crate::verif_common::stub_not_interrupted))]
 #[cfg_attr(kani, kani::stub(crate::decode::lzma::DecoderState::process_next_inner, crate::decode::lzma::verif_h::abs_symbol))]
 #[cfg_attr(kani, kani::stub(crate::decode::lzma::DecoderState::reset_state, crate::decode::lzma2::verif_h::observing_reset_state))]
 #[cfg_attr(kani, kani::stub(crate::decode::lzbuffer::LzAccumBuffer::from_stream, crate::decode::lzbuffer::verif_h::accum_from_stream_with_capacity))]
@@ -295,6 +305,7 @@ pub fn lzma2_c2_n1_l2_pdm6_ud0_p5d() {
 //@ bound: LZMA2 stream: one LZMA chunk class 2 (props byte 0xe0), 1 abstract symbol(s) of 1 bytes, compressed-size field off by 0, uncompressed-size field off by 0; payload symbolic; end byte + 1 trailing byte
 #[cfg_attr(kani, kani::proof)]
 #[cfg_attr(kani, kani::stub(std::fmt::format, crate::verif_common::stub_format))]
+#[cfg_attr(kani, kani::stub(std::io::Error::is_interrupted, crate::verif_common::stub_not_interrupted))]
 #[cfg_attr(kani, kani::stub(crate::decode::lzma::DecoderState::process_next_inner, crate::decode::lzma::verif_h::abs_symbol))]
 #[cfg_attr(kani, kani::stub(crate::decode::lzma::DecoderState::reset_state, crate::decode::lzma2::verif_h::observing_reset_state))]
 #[cfg_attr(kani, kani::stub(crate::decode::lzbuffer::LzAccumBuffer::from_stream, crate::decode::lzbuffer::verif_h::accum_from_stream_with_capacity))]
@@ -306,6 +317,7 @@ pub fn lzma2_c2_n1_l1_pd0_ud0_pe0() {
 //@ bound: LZMA2 stream: one LZMA chunk class 2 (props byte 0xe1), 1 abstract symbol(s) of 1 bytes, compressed-size field off by 0, uncompressed-size field off by 0; payload symbolic; end byte + 1 trailing byte
 #[cfg_attr(kani, kani::proof)]
 #[cfg_attr(kani, kani::stub(std::fmt::format, crate::verif_common::stub_format))]
+#[cfg_attr(kani, kani::stub(std::io::Error::is_interrupted, crate::verif_common::stub_not_interrupted))]
 #[cfg_attr(kani, kani::stub(crate::decode::lzma::DecoderState::process_next_inner, crate::decode::lzma::verif_h::abs_symbol))]
 #[cfg_attr(kani, kani::stub(crate::decode::lzma::DecoderState::reset_state, crate::decode::lzma2::verif_h::observing_reset_state))]
 #[cfg_attr(kani, kani::stub(crate::decode::lzbuffer::LzAccumBuffer::from_stream, crate::decode::lzbuffer::verif_h::accum_from_stream_with_capacity))]
@@ -317,6 +329,7 @@ pub fn lzma2_c2_n1_l1_pd0_ud0_pe1() {
 //@ bound: LZMA2 stream: one LZMA chunk class 3 (props byte 0x2c), 1 abstract symbol(s) of 1 bytes, compressed-size field off by 0, uncompressed-size field off by 0; payload symbolic; end byte + 1 trailing byte
 #[cfg_attr(kani, kani::proof)]
 #[cfg_attr(kani, kani::stub(std::fmt::format, crate::verif_common::stub_format))]
+#[cfg_attr(kani, kani::stub(std::io::Error::is_interrupted, crate::verif_common::stub_not_interrupted))]
 #[cfg_attr(kani, kani::stub(crate::decode::lzma::DecoderState::process_next_inner, crate::decode::lzma::verif_h::abs_symbol))]
 #[cfg_attr(kani, kani::stub(crate::decode::lzma::DecoderState::reset_state, crate::decode::lzma2::verif_h::observing_reset_state))]
 #[cfg_attr(kani, kani::stub(crate::decode::lzbuffer::LzAccumBuffer::from_stream, crate::decode::lzbuffer::verif_h::accum_from_stream_with_capacity))]
@@ -328,6 +341,7 @@ pub fn lzma2_c3_n1_l1_pd0_ud0_p2c() {
 //@ bound: LZMA2 stream: one LZMA chunk class 3 (props byte 0x28), 1 abstract symbol(s) of 1 bytes, compressed-size field off by 0, uncompressed-size field off by 0; payload symbolic; end byte + 1 trailing byte
 #[cfg_attr(kani, kani::proof)]
 #[cfg_attr(kani, kani::stub(std::fmt::format, crate::verif_common::stub_format))]
+#[cfg_attr(kani, kani::stub(std::io::Error::is_interrupted, crate::verif_common::stub_not_interrupted))]
 #[cfg_attr(kani, kani::stub(crate::decode::lzma::DecoderState::process_next_inner, crate::decode::lzma::verif_h::abs_symbol))]
 #[cfg_attr(kani, kani::stub(crate::decode::lzma::DecoderState::reset_state, crate::decode::lzma2::verif_h::observing_reset_state))]
 #[cfg_attr(kani, kani::stub(crate::decode::lzbuffer::LzAccumBuffer::from_stream, crate::decode::lzbuffer::verif_h::accum_from_stream_with_capacity))]
@@ -339,6 +353,7 @@ pub fn lzma2_c3_n1_l1_pd0_ud0_p28() {
 //@ bound: LZMA2 stream: one LZMA chunk class 3 (props byte 0xff), 1 abstract symbol(s) of 1 bytes, compressed-size field off by 0, uncompressed-size field off by 0; payload symbolic; end byte + 1 trailing byte
 #[cfg_attr(kani, kani::proof)]
 #[cfg_attr(kani, kani::stub(std::fmt::format, crate::verif_common::stub_format))]
+#[cfg_attr(kani, kani::stub(std::io::Error::is_interrupted, crate::verif_common::stub_not_interrupted))]
 #[cfg_attr(kani, kani::stub(crate::decode::lzma::DecoderState::process_next_inner, crate::decode::lzma::verif_h::abs_symbol))]
 #[cfg_attr(kani, kani::stub(crate::decode::lzma::DecoderState::reset_state, crate::decode::lzma2::verif_h::observing_reset_state))]
 #[cfg_attr(kani, kani::stub(crate::decode::lzbuffer::LzAccumBuffer::from_stream, crate::decode::lzbuffer::verif_h::accum_from_stream_with_capacity))]
@@ -350,6 +365,7 @@ pub fn lzma2_c3_n1_l1_pd0_ud0_pff() {
 //@ bound: LZMA2 stream: one LZMA chunk class 3 (props byte 0x5d), 2 abstract symbol(s) of 2 bytes, compressed-size field off by 1, uncompressed-size field off by 0; payload symbolic; end byte + 1 trailing byte
 #[cfg_attr(kani, kani::proof)]
 #[cfg_attr(kani, kani::stub(std::fmt::format, crate::verif_common::stub_format))]
+#[cfg_attr(kani, kani::stub(std::io::Error::is_interrupted, crate::verif_common::stub_not_interrupted))]
 #[cfg_attr(kani, kani::stub(crate::decode::lzma::DecoderState::process_next_inner, crate::decode::lzma::verif_h::abs_symbol))]
 #[cfg_attr(kani, kani::stub(crate::decode::lzma::DecoderState::reset_state, crate::decode::lzma2::verif_h::observing_reset_state))]
 #[cfg_attr(kani, kani::stub(crate::decode::lzbuffer::LzAccumBuffer::from_stream, crate::decode::lzbuffer::verif_h::accum_from_stream_with_capacity))]
@@ -394,6 +410,7 @@ fn wide_chunk<const DECL: usize>() {
 //@ bound: LZMA2 stream: one LZMA chunk (class 1) whose only symbol yields 3 bytes, declared uncompressed size 1
 #[cfg_attr(kani, kani::proof)]
 #[cfg_attr(kani, kani::stub(std::fmt::format, crate::verif_common::stub_format))]
+#[cfg_attr(kani, kani::stub(std::io::Error::is_interrupted, crate::verif_common::stub_not_interrupted))]
 #[cfg_attr(kani, kani::stub(crate::decode::lzma::DecoderState::process_next_inner, crate::decode::lzma::verif_h::abs_symbol))]
 #[cfg_attr(kani, kani::stub(crate::decode::lzma::DecoderState::reset_state, crate::decode::lzma2::verif_h::observing_reset_state))]
 #[cfg_attr(kani, kani::stub(crate::decode::lzbuffer::LzAccumBuffer::from_stream, crate::decode::lzbuffer::verif_h::accum_from_stream_with_capacity))]
@@ -405,6 +422,7 @@ pub fn lzma2_wide_decl1() {
 //@ bound: LZMA2 stream: one LZMA chunk (class 1) whose only symbol yields 3 bytes, declared uncompressed size 2
 #[cfg_attr(kani, kani::proof)]
 #[cfg_attr(kani, kani::stub(std::fmt::format, crate::verif_common::stub_format))]
+#[cfg_attr(kani, kani::stub(std::io::Error::is_interrupted, crate::verif_common::stub_not_interrupted))]
 #[cfg_attr(kani, kani::stub(crate::decode::lzma::DecoderState::process_next_inner, crate::decode::lzma::verif_h::abs_symbol))]
 #[cfg_attr(kani, kani::stub(crate::decode::lzma::DecoderState::reset_state, crate::decode::lzma2::verif_h::observing_reset_state))]
 #[cfg_attr(kani, kani::stub(crate::decode::lzbuffer::LzAccumBuffer::from_stream, crate::decode::lzbuffer::verif_h::accum_from_stream_with_capacity))]
@@ -416,6 +434,7 @@ pub fn lzma2_wide_decl2() {
 //@ bound: LZMA2 stream: one LZMA chunk (class 1) whose only symbol yields 3 bytes, declared uncompressed size 3
 #[cfg_attr(kani, kani::proof)]
 #[cfg_attr(kani, kani::stub(std::fmt::format, crate::verif_common::stub_format))]
+#[cfg_attr(kani, kani::stub(std::io::Error::is_interrupted, crate::verif_common::stub_not_interrupted))]
 #[cfg_attr(kani, kani::stub(crate::decode::lzma::DecoderState::process_next_inner, crate::decode::lzma::verif_h::abs_symbol))]
 #[cfg_attr(kani, kani::stub(crate::decode::lzma::DecoderState::reset_state, crate::decode::lzma2::verif_h::observing_reset_state))]
 #[cfg_attr(kani, kani::stub(crate::decode::lzbuffer::LzAccumBuffer::from_stream, crate::decode::lzbuffer::verif_h::accum_from_stream_with_capacity))]
@@ -427,6 +446,7 @@ pub fn lzma2_wide_decl3() {
 //@ bound: LZMA2 stream: one LZMA chunk (class 1) whose only symbol yields 3 bytes, declared uncompressed size 4
 #[cfg_attr(kani, kani::proof)]
 #[cfg_attr(kani, kani::stub(std::fmt::format, crate::verif_common::stub_format))]
+#[cfg_attr(kani, kani::stub(std::io::Error::is_interrupted, crate::verif_common::stub_not_interrupted))]
 #[cfg_attr(kani, kani::stub(crate::decode::lzma::DecoderState::process_next_inner, crate::decode::lzma::verif_h::abs_symbol))]
 #[cfg_attr(kani, kani::stub(crate::decode::lzma::DecoderState::reset_state, crate::decode::lzma2::verif_h::observing_reset_state))]
 #[cfg_attr(kani, kani::stub(crate::decode::lzbuffer::LzAccumBuffer::from_stream, crate::decode::lzbuffer::verif_h::accum_from_stream_with_capacity))]
@@ -441,6 +461,7 @@ pub fn lzma2_wide_decl4() {
 //@ bound: parse_lzma with every status byte < 0x80 on a 12-byte symbolic input
 #[cfg_attr(kani, kani::proof)]
 #[cfg_attr(kani, kani::stub(std::fmt::format, crate::verif_common::stub_format))]
+#[cfg_attr(kani, kani::stub(std::io::Error::is_interrupted, crate::verif_common::stub_not_interrupted))]
 #[cfg_attr(kani, kani::stub(crate::decode::lzma::DecoderState::process_next_inner, crate::decode::lzma::verif_h::abs_symbol))]
 #[cfg_attr(kani, kani::stub(crate::decode::lzma::DecoderState::reset_state, crate::decode::lzma2::verif_h::observing_reset_state))]
 pub fn lzma2_parse_lzma_invalid_status() {
@@ -514,6 +535,7 @@ fn parse_lzma_fields<const CLASS: usize>() {
 //@ bound: parse_lzma directly, class 0 (no reset), symbolic 21-bit uncompressed-size field, one abstract symbol
 #[cfg_attr(kani, kani::proof)]
 #[cfg_attr(kani, kani::stub(std::fmt::format, crate::verif_common::stub_format))]
+#[cfg_attr(kani, kani::stub(std::io::Error::is_interrupted, crate::verif_common::stub_not_interrupted))]
 #[cfg_attr(kani, kani::stub(crate::decode::lzma::DecoderState::process_next_inner, crate::decode::lzma::verif_h::abs_symbol))]
 #[cfg_attr(kani, kani::stub(crate::decode::lzma::DecoderState::reset_state, crate::decode::lzma2::verif_h::observing_reset_state))]
 pub fn lzma2_parse_lzma_fields_c0() {
@@ -524,6 +546,7 @@ pub fn lzma2_parse_lzma_fields_c0() {
 //@ bound: parse_lzma directly, class 2 (state reset + new props), symbolic property byte and 21-bit size field, one abstract symbol
 #[cfg_attr(kani, kani::proof)]
 #[cfg_attr(kani, kani::stub(std::fmt::format, crate::verif_common::stub_format))]
+#[cfg_attr(kani, kani::stub(std::io::Error::is_interrupted, crate::verif_common::stub_not_interrupted))]
 #[cfg_attr(kani, kani::stub(crate::decode::lzma::DecoderState::process_next_inner, crate::decode::lzma::verif_h::abs_symbol))]
 #[cfg_attr(kani, kani::stub(crate::decode::lzma::DecoderState::reset_state, crate::decode::lzma2::verif_h::observing_reset_state))]
 pub fn lzma2_parse_lzma_fields_c2() {
